@@ -477,8 +477,107 @@ func TestVerif_C16(t *testing.T) {
 			c16Compare(rec, "explode", c, g, qs, sb, sc, live)
 			sb.Close()
 			sc.Close()
+			if ci%2 == 0 && live >= 2 {
+				c16SecondGeneration(rec, c, g, qs, sa, dstN, filepath.Join(base, "d"), live)
+			}
 		}()
 	}
+}
+
+// c16SecondGeneration: the history a vacuum/re-merge cycle produces. The compound shard
+// gets a sidecar (one repository is tombstoned through SetTombstone), is exploded,
+// the tombstoned repository is indexed again, and everything is merged once more in
+// the original order — compound shards are named after their repositories, so the new
+// compound shard gets the old file name. The result must again answer like the
+// original simple shards (every repository that was live there is live again).
+func c16SecondGeneration(rec *kit.Rec, c *kit.Corpus, g *kit.Gen, qs []query.Q, sa zoekt.Searcher, compound, dir string, live int) {
+	fail := func(sig string, err error) {
+		rec.Violation(sig+"/"+kit.MsgClass(err.Error()), err.Error(), map[string]any{"corpus": ix.Dump(c)})
+	}
+	os.MkdirAll(dir, 0o755)
+	cp := filepath.Join(dir, filepath.Base(compound))
+	if err := copyFile(compound, cp); err != nil {
+		rec.Violation("harness/copy", err.Error(), nil)
+		return
+	}
+	var liveRepos []*kit.Repo
+	for _, r := range c.Repos {
+		if !r.Tombstone {
+			liveRepos = append(liveRepos, r)
+		}
+	}
+	victim := liveRepos[g.R.IntN(len(liveRepos))]
+	if err := index.SetTombstone(cp, victim.ID); err != nil {
+		fail("remerge/settombstone error", err)
+		return
+	}
+	if err := index.Explode(dir, cp); err != nil {
+		fail("remerge/explode error", err)
+		return
+	}
+	// the tombstoned repository is indexed again
+	if _, err := ix.BuildSimple(dir, victim); err != nil {
+		rec.Violation("harness/build", err.Error(), nil)
+		return
+	}
+	byName := map[string]string{}
+	shards, _ := filepath.Glob(filepath.Join(dir, "*.zoekt"))
+	for _, p := range shards {
+		if repos, _, err := index.ReadMetadataPath(p); err == nil && len(repos) == 1 {
+			byName[repos[0].Name] = p
+		}
+	}
+	var files []index.IndexFile
+	var inputs []string
+	closeAll := func() {
+		for _, f := range files {
+			f.Close()
+		}
+	}
+	for _, r := range liveRepos {
+		p, ok := byName[r.Name]
+		if !ok {
+			closeAll()
+			rec.Violation("remerge/exploded shard missing", r.Name, map[string]any{"corpus": ix.Dump(c), "victim": victim.Name})
+			return
+		}
+		f, err := ix.OpenFile(p)
+		if err != nil {
+			closeAll()
+			fail("remerge/open error", err)
+			return
+		}
+		files = append(files, f)
+		inputs = append(inputs, p)
+	}
+	tmpN, dstN, err := index.Merge(dir, files...)
+	closeAll()
+	if err != nil {
+		fail("remerge/merge error", err)
+		return
+	}
+	for _, p := range inputs { // what zoekt-merge-index does: inputs go, then the compound shard appears
+		if paths, err := index.IndexFilePaths(p); err == nil {
+			for _, x := range paths {
+				os.Remove(x)
+			}
+		}
+	}
+	if err := os.Rename(tmpN, dstN); err != nil {
+		rec.Violation("harness/rename", err.Error(), nil)
+		return
+	}
+	rec.Count("second_generation_histories", 1)
+	if filepath.Base(dstN) == filepath.Base(compound) {
+		rec.Count("second_generation_reuses_compound_file_name", 1)
+	}
+	sd, err := search.NewDirectorySearcher(dir)
+	if err != nil {
+		rec.Violation("harness/open", err.Error(), nil)
+		return
+	}
+	defer sd.Close()
+	c16Compare(rec, "remerge", c, g, qs, sa, sd, live)
 }
 
 func c16Compare(rec *kit.Rec, tag string, c *kit.Corpus, g *kit.Gen, qs []query.Q, a, b zoekt.Searcher, live int) {
